@@ -12,6 +12,12 @@ CHECKS = {
  "C10": dict(level="exploration", technique="bounded-exhaustive enumeration of all subsets and orders of fragment pools against a coverage oracle derived from payload content",
    text="For each bundle shape and payload size a pool of fragments is built from three real fragmentations with different limits plus second-level fragmentation of fragments; every non-empty subset (optionally with a duplicate) in all orders (<=4 elements) or asc/desc/rotated orders is reassembled by the real ReassembleFragments / IsBundleReassemblable / storage.Store and compared with coverage computed from the fragments' payload content. Exhaustive over subsets within the pool bound.",
    note="Trusted: injective payload byte pattern locates each fragment's true position independently of its header; reference encoder/decoder; store reused across cases with distinct bundle IDs.", design="3/C10"),
+ "C01": dict(level="exploration", technique="bounded-exhaustive input enumeration (<=d non-default alphabet dimensions) plus exhaustive single structural deviations of encodings",
+   text="(a) every bundle with at most 2 (quick) / 2 plus reduced 3 (thorough) non-default dimensions of a 17-dimension alphabet is built, serialised, parsed and compared field by field, and re-serialised byte-identically; (b) every single structural deviation (thorough: accepted deviations once more) of the encodings of a core set is re-sealed with reference CRCs and, if the parser accepts it, must re-serialise to an accepted encoding with the same ID/blocks/payload. Exhaustive within those bounds; arbitrary byte strings are not covered.",
+   note="Trusted: reference encoder/tree editor/CRCs (mc/ref). Validity of generated bundles is decided by the implementation's CheckValid (C02 checks that predicate).", design="3/C01"),
+ "C03": dict(level="fault_enumeration", technique="exhaustive single-bit-flip and burst-error enumeration with an independent bitwise CRC oracle",
+   text="For a set of fully CRC-protected bundles every single-bit flip and every burst (start bit x length <= CRC width x all interior patterns up to a stated length, structured patterns above) is presented to the real parser; acceptance is judged by an independent CRC-16/X-25 / CRC-32C over independently delimited blocks. Serialiser CRCs (fresh, after every sequence of <=2 in-memory mutations, after parse) are compared with the bitwise reference.",
+   note="Trusted: bitwise CRCs self-tested against published check values; reference tokenizer for block delimiting. Interior patterns of long bursts are capped (reported).", design="3/C03"),
 }
 NA_REASON = "check not built yet in this round (planned in DESIGN.md section 3)"
 
